@@ -13,7 +13,7 @@ from vlib import build as B, lean as L, express_front as X
 
 HERE = os.path.dirname(os.path.abspath(__file__))
 VERIF = os.path.dirname(HERE)
-EXTRACTORS = ["liberrors", "resolvegen"]
+EXTRACTORS = ["liberrors", "resolvegen", "reportsites"]
 KNOWN_PY = "exp2python-abort-on-attribute"
 KNOWN_PY_FUNC = "exp2python-abort-on-function-parameter"
 KNOWN_PY_IFACE = "exp2python-abort-on-partial-interface-clause"
